@@ -327,7 +327,13 @@ func Run(sc *Scenario) *Obs {
 			} else {
 				r := stack.Do(s.Addr, raw, 8*time.Second)
 				res[i] = ReqObs{Err: r.Err, Status: r.Status, Complete: r.Complete, BodyLen: len(r.Body)}
-				res[i].Marker = bytes.Contains(r.Body, []byte("message_stop")) || bytes.Contains(r.Body, []byte(`"type":"message"`))
+				// a streamed message is complete when its message_stop event has arrived and no error event did
+				// (message_start carries "type":"message" too, so that is a sign of completeness only for a buffered answer)
+				if bytes.Contains(r.Body, []byte("event: message_start")) {
+					res[i].Marker = bytes.Contains(r.Body, []byte("event: message_stop")) && !bytes.Contains(r.Body, []byte("event: error"))
+				} else {
+					res[i].Marker = bytes.Contains(r.Body, []byte(`"type":"message"`))
+				}
 			}
 			res[i].Cid = i
 			fmu.Lock()
